@@ -32,6 +32,10 @@ type PathSel struct {
 	Up       int          `json:"up"`        // truncate this many elements from the leaf
 	DropKeys int          `json:"drop_keys"` // bitmask of keys to drop from the last list element
 	Unknown  bool         `json:"unknown,omitempty"`
+	// DropOuter: omit all keys of the first list element while the path continues below it
+	DropOuter bool `json:"drop_outer,omitempty"`
+	// Masks: per list element of the path (in path order) a bitmask of keys to omit (sorted key names)
+	Masks []int `json:"masks,omitempty"`
 }
 
 type Case struct {
@@ -45,8 +49,28 @@ type Case struct {
 	Owner   int              `json:"owner"`           // intended: -1 = none (highest precedence), 0/1 = that owner with its priority
 }
 
+// twins adds, for some of the leaves, a sibling under a list entry whose key values differ in some positions
+// (the key pools hold textually related values: eth1 / eth10 / eth1/1 and 1 / 10)
+func twins(t *rapid.T, sels []vlib.LeafSel, label string) []vlib.LeafSel {
+	out := sels
+	for _, s := range sels {
+		if len(s.K) == 0 || rapid.IntRange(0, 2).Draw(t, label+"-twin") != 0 {
+			continue
+		}
+		tw := vlib.LeafSel{T: s.T, V: rapid.IntRange(0, 2).Draw(t, label+"-tv")}
+		for _, k := range s.K {
+			if rapid.Bool().Draw(t, label+"-tk") {
+				k = (k + 1 + rapid.IntRange(0, 1).Draw(t, label+"-tki")) % 3
+			}
+			tw.K = append(tw.K, k)
+		}
+		out = append(out, tw)
+	}
+	return out
+}
+
 func gen(t *rapid.T) *Case {
-	c := &Case{Running: vlib.GenLeafSels(t, uni, 0, 10, "run")}
+	c := &Case{Running: twins(t, vlib.GenLeafSels(t, uni, 0, 10, "run"), "run")}
 	ni := rapid.IntRange(0, 2).Draw(t, "nintents")
 	for i := 0; i < ni; i++ {
 		c.Intents = append(c.Intents, vlib.GenLeafSels(t, uni, 1, 6, "int"))
@@ -54,10 +78,23 @@ func gen(t *rapid.T) *Case {
 	np := rapid.IntRange(0, 3).Draw(t, "npaths")
 	for i := 0; i < np; i++ {
 		ps := PathSel{Leaf: vlib.GenLeafSels(t, uni, 1, 1, "p")[0], Up: rapid.IntRange(0, 3).Draw(t, "up")}
+		// most requests address something that is stored
+		var stored []vlib.LeafSel
+		stored = append(stored, c.Running...)
+		for _, in := range c.Intents {
+			stored = append(stored, in...)
+		}
+		if len(stored) > 0 && rapid.IntRange(0, 2).Draw(t, "stored-path") != 0 {
+			ps.Leaf = stored[rapid.IntRange(0, len(stored)-1).Draw(t, "stored-ix")]
+		}
 		if rapid.IntRange(0, 3).Draw(t, "partial") == 0 {
 			ps.DropKeys = rapid.IntRange(1, 3).Draw(t, "drop")
 		}
 		ps.Unknown = rapid.IntRange(0, 9).Draw(t, "unknown") == 0
+		ps.DropOuter = rapid.IntRange(0, 4).Draw(t, "drop-outer") == 0
+		if rapid.IntRange(0, 2).Draw(t, "masks") == 0 {
+			ps.Masks = rapid.SliceOfN(rapid.SampledFrom([]int{0, 0, 1, 2, 3, 7}), 1, 3).Draw(t, "mask")
+		}
 		c.Paths = append(c.Paths, ps)
 	}
 	c.Root = np == 0 || rapid.IntRange(0, 5).Draw(t, "root") == 0
@@ -71,7 +108,7 @@ func gen(t *rapid.T) *Case {
 			c.Paths = []PathSel{{Leaf: vlib.GenLeafSels(t, uni, 1, 1, "lp")[0]}}
 		}
 		for i := range c.Paths {
-			c.Paths[i].Up, c.Paths[i].DropKeys = 0, 0
+			c.Paths[i].Up, c.Paths[i].DropKeys, c.Paths[i].DropOuter, c.Paths[i].Masks = 0, 0, false, nil
 		}
 		c.Root = false
 	}
@@ -112,6 +149,33 @@ func resolvePath(ps PathSel) vlib.IPath {
 						delete(p[i].Keys, k)
 					}
 				}
+				break
+			}
+		}
+	}
+	li := 0
+	for i := range p {
+		if len(p[i].Keys) == 0 {
+			continue
+		}
+		if li < len(ps.Masks) && ps.Masks[li] != 0 {
+			names := make([]string, 0, len(p[i].Keys))
+			for k := range p[i].Keys {
+				names = append(names, k)
+			}
+			sort.Strings(names)
+			for j, k := range names {
+				if ps.Masks[li]&(1<<j) != 0 {
+					delete(p[i].Keys, k)
+				}
+			}
+		}
+		li++
+	}
+	if ps.DropOuter {
+		for i := 0; i < len(p)-1; i++ {
+			if len(p[i].Keys) > 0 {
+				p[i].Keys = nil
 				break
 			}
 		}
@@ -263,6 +327,9 @@ func Exec(c *Case) (nontrivial bool, labels []string, fail *vlib.Failure) {
 		paths = append(paths, resolvePath(ps))
 		if ps.Unknown {
 			unknown = true
+		}
+		if ps.DropOuter || len(ps.Masks) > 0 {
+			lab["keys-omitted-above-the-last-element"] = true
 		}
 		if ps.DropKeys != 0 {
 			lab["partial-keys"] = true
